@@ -426,8 +426,11 @@ def nontrivial_c07(o):
     return m >= 2 and any(o["cov"][i][j] != 0 for i in range(m) for j in range(m) if i != j)
 
 
-def judge_c07(case, o, r):
-    """-> (failures, n_skipped_comparisons)"""
+def judge_c07(case, o, r, session=None):
+    """-> (failures, n_skipped_comparisons); session: answer of the Lean session model
+    (`fit.session`) for the history of the case -- which parameter pairs still carry the record
+    the fit wrote (theorem C07_session_invisible: all of them, for every history without
+    reset_correlations)"""
     fails, skipped = [], 0
     t = tag(case)
     if "fail" in r:
@@ -501,7 +504,13 @@ def judge_c07(case, o, r):
         for key, what in (("chi2", "chi-squared"), ("res", "the residuals"), ("perr", "the parameter "
                           "uncertainties"), ("popt", "the parameter values"), ("regcorr", "the registered "
                           "correlations"), ("str", "the printed result")):
-            if o[key + "@after"] != o[key]:
+            before, after = o[key], o[key + "@after"]
+            if key == "regcorr" and session is not None and "kept" in session:
+                # judged where the session model says the record is still the fit's
+                kept = session["kept"]
+                before = [[v for v, kp in zip(row, krow) if kp] for row, krow in zip(before, kept)]
+                after = [[v for v, kp in zip(row, krow) if kp] for row, krow in zip(after, kept)]
+            if after != before:
                 fails.append(fail("c07:moved-by-history:" + key + ":" + t, "{} changed over the history "
                                   "{}".format(what, case.get("hist")), case, impl=o[key + "@after"],
                                   expected=o[key], clause="one fit result"))
@@ -627,6 +636,9 @@ def run_c07(ctx, cases, ref=False):
             continue
         lines.append(result_request(c, o))
         idx.append((c, o))
+    # the histories in the vocabulary of the session model (one request line per case with a history)
+    sess_idx = [k for k, (c, _) in enumerate(idx) if c.get("hist")]
+    sess_lines = [G.session_requests(idx[k][0]) for k in sess_idx]
     for (c, o), k in zip(raised, conditioning(ctx, [c for c, _ in raised], ref=ref)):
         if k > KAPPA_MAX:
             skipped += 1
@@ -635,9 +647,21 @@ def run_c07(ctx, cases, ref=False):
         failures.append(fail("c07:exception:{}:{}".format(tag(c), o["exception"].split(":")[0]),
                              "fitting or reading the result (condition estimate {:.1e}) raised "
                              "{}".format(k, o["exception"]), c))
-    mod = ctx.model(lines, ref=ref) if lines else []
-    for (c, o), r in zip(idx, mod):
-        fs, sk = judge_c07(c, o, r)
+    mod = ctx.model(lines + sess_lines, ref=ref) if lines else []
+    sess = dict(zip(sess_idx, mod[len(lines):]))
+    mod = mod[:len(lines)]
+    for k_, ((c, o), r) in enumerate(zip(idx, mod)):
+        sm = sess.get(k_)
+        if sm is not None:
+            if "fail" in sm:
+                failures.append(fail("c07:model-error:session", "session model: " + sm["fail"], c,
+                                     kind="disagreement"))
+                sm = None
+            else:
+                dist["session-model:histories-run"] += 1
+                if all(all(row) for row in sm["kept"]):
+                    dist["session-model:all-parameter-records-kept"] += 1
+        fs, sk = judge_c07(c, o, r, session=sm)
         skipped += sk
         failures += fs
         if nontrivial_c07(o):
